@@ -103,11 +103,11 @@ Qed.
 
 (* what a thread is going to return when it starts = the sequential evaluation from a fresh interpreter *)
 Lemma outcome_initial : forall fuel tbl i ts c,
-  outcome fuel tbl (mkT i ts c PStart) = result_after false fuel tbl [] i ts c.
+  outcome fuel tbl (mkT i ts c PStart) = result_after false false fuel tbl [] i ts c.
 Proof.
   intros fuel tbl i ts c. unfold outcome, result_after, step_call. cbn [t_phase t_fn t_ctx t_args run_hist].
   destruct (nth_error tbl i) as [fd|]; [|reflexivity].
-  unfold entry_for, key_of, compile, start_run, invoke, alloc_trees, apply_body, finish.
+  unfold entry_for, key_of, compile, start_run, invoke, invoke_val, alloc_trees, apply_body, finish.
   cbn [empty_state st_cache st_store lookup length].
   destruct (allocs_at Interp (fd_env fd) 0) as [caps e1]. cbn [ce_code ce_caps app length].
   destruct (allocs_at Interp ts (length e1)) as [a e2].
@@ -123,8 +123,8 @@ Proof. intros tbl c k code env H. cbn in H. discriminate. Qed.
 Theorem interleave_sequential : forall fuel tbl sched sh i1 ts1 c1 i2 ts2 c2 sh' t1' t2',
   sh_ok tbl sh ->
   run_sched false fuel tbl sched sh (mkT i1 ts1 c1 PStart) (mkT i2 ts2 c2 PStart) = (sh', t1', t2') ->
-  (forall o, t_phase t1' = PDone o -> o = result_after false fuel tbl [] i1 ts1 c1) /\
-  (forall o, t_phase t2' = PDone o -> o = result_after false fuel tbl [] i2 ts2 c2) /\
+  (forall o, t_phase t1' = PDone o -> o = result_after false false fuel tbl [] i1 ts1 c1) /\
+  (forall o, t_phase t2' = PDone o -> o = result_after false false fuel tbl [] i2 ts2 c2) /\
   sh_ok tbl sh'.
 Proof.
   intros fuel tbl sched sh i1 ts1 c1 i2 ts2 c2 sh' t1' t2' Hok H.
@@ -170,7 +170,7 @@ Theorem shared_ctx_refuted :
   exists fuel tbl sched i1 ts1 c1 i2 ts2 c2 o,
     t_phase (snd (fst (run_sched true fuel tbl sched (mkSh [] RNE) (mkT i1 ts1 c1 PStart) (mkT i2 ts2 c2 PStart))))
       = PDone o /\
-    o <> result_after false fuel tbl [] i1 ts1 c1.
+    o <> result_after false false fuel tbl [] i1 ts1 c1.
 Proof.
   exists 9%nat, [fn_scale], [true; true; false; true; true; true; true],
          0%nat, [TList [TNum 7]], RTZ, 0%nat, [TList [TNum 7]], RTP, (Some (TList [TNum 4])).
